@@ -790,9 +790,16 @@ def run(ctx: Ctx):
         exchanges = 0
         interposers = {}
         stopped_early = False
-        CHUNK = 100
-        for lo in range(0, len(cases), CHUNK):
-            chunk = cases[lo:lo + CHUNK] + [{"cat": "stats", "ops": ["stats"]}]
+        # small first chunks: a tree that breaks the property can make every exchange slow (unexpected time-outs), and the
+        # run stops as soon as enough failing inputs are in hand
+        bounds, lo = [], 0
+        for size in [12 + 20, 70] + [100] * (len(cases) // 100 + 1):
+            if lo >= len(cases):
+                break
+            bounds.append((lo, min(lo + size, len(cases))))
+            lo += size
+        for lo, hi in bounds:
+            chunk = cases[lo:hi] + [{"cat": "stats", "ops": ["stats"]}]
             res = ctx.lockstep("httpretry", hb, chunk, timeout=3000) if have_model else impl_only(ctx, hb, chunk)
             for c, impl, model in res:
                 if c["cat"] == "stats":
@@ -830,7 +837,7 @@ def run(ctx: Ctx):
             if n_prop >= 8 or n_mismatch >= 12:
                 # failing inputs are in hand; a tree that breaks the property can make every further exchange slow (unexpected time-outs)
                 stopped_early = True
-                ctx.notes.append("stopped after %d of %d cases: %d property violations, %d correspondence mismatches" % (lo + len(chunk) - 1, len(cases), n_prop, n_mismatch))
+                ctx.notes.append("stopped after %d of %d cases: %d property violations, %d correspondence mismatches" % (hi, len(cases), n_prop, n_mismatch))
                 break
         ctx.extra["interposers"] = interposers
         ctx.extra["stopped_early"] = stopped_early
@@ -840,7 +847,7 @@ def run(ctx: Ctx):
     ctx.extra["input_distribution"] = dist
     ctx.extra["repo_tree_sha"] = ctx.repo_tree_sha(ANCHOR_FILES)
     ctx.extra["not_proved"] = [
-        "R6 wall-clock part (each attempt ends within its configured timeout): measured by the harness (virtual client time per attempt, plus real-time cases), not a theorem",
+        "R6 wall-clock part (each attempt ends within its configured timeout): measured, not a theorem — no timed wait the requesting thread asks for exceeds the configured time-outs, no wait is repeated after a time-out, and a few silent-peer cases run with REAL time-outs",
         "the condition-variable hand-off inside acquireLease/releaseLease (no lost wake-up) is not modelled: blocking is 'enabled iff the host is free'; that the erase is under _mutex and the notify is notify_all is a translator check, and concurrent runs would hang into the harness watchdog",
     ]
     ctx.assumptions += [
